@@ -97,7 +97,7 @@ DOT_TOKEN = re.compile(r"""
   | (?P<arrow>->|--)
   | (?P<punct>[\[\]{};,=:])
   | (?P<quoted>"(?:[^"\\]|\\.)*")
-  | (?P<id>[A-Za-z_\u0080-\uffff][\w\u0080-\uffff]*|-?(?:\.\d+|\d+(?:\.\d*)?))
+  | (?P<id>-?[\w\u0080-\uffff.']+)
 """, re.X | re.S | re.M)
 
 
@@ -121,7 +121,7 @@ def dot_tokens(text):
     return out
 
 
-def parse_dot(text):
+def parse_dot(text, undirected=False):
     """A reader for the DOT language as far as a graph exporter can reasonably use it: `digraph name { stmt* }` with node
     statements, edge statements (chains), attribute lists, `graph/node/edge [..]` defaults and `a = b` graph attributes,
     separated by `;` or nothing; comments.  Returns every node STATEMENT (so a node declared twice shows up twice) and every
@@ -141,8 +141,8 @@ def parse_dot(text):
 
     if peek() == "id" and toks[i][1] == "strict":
         i += 1
-    if not (peek() == "id" and toks[i][1] == "digraph"):
-        raise ValueError("not a digraph")
+    if not (peek() == "id" and toks[i][1] == ("graph" if undirected else "digraph")):
+        raise ValueError("not a %s" % ("graph" if undirected else "digraph"))
     i += 1
     if peek() == "id":
         i += 1
@@ -183,8 +183,8 @@ def parse_dot(text):
             continue
         chain = [first[1]]
         while peek() == "arrow":
-            if toks[i][1] != "->":
-                raise ValueError("DOT: undirected edge in a digraph")
+            if toks[i][1] != ("--" if undirected else "->"):
+                raise ValueError("DOT: wrong edge operator %s" % toks[i][1])
             i += 1
             chain.append(take("id")[1])
             if peek() == ":":          # ports
